@@ -695,3 +695,33 @@ def network_by_value_exact(ctx):
 PROP.obligation('C05.network-lookup', canaries=[
     mut.replace_expr('networks', 'network_by_value', 'NETWORK_DEFINITIONS[nv][field] == value', 'value.startswith(NETWORK_DEFINITIONS[nv][field])', 'prefixes matched by startswith', nth=0),
 ])(network_by_value_exact)
+
+
+@PROP.obligation('C05.network-forwarded', canaries=[
+    mut.replace_expr('transactions', 'Transaction.parse_bytesio', 'Output.parse(rawtx, output_n=n, strict=strict, network=network)', 'Output.parse(rawtx, output_n=n, strict=strict, network=cls.network)', 'outputs parsed with the network a class attribute remembers'),
+])
+def network_forwarded(ctx):
+    """A parser or constructor of transactions.py / blocks.py / keys.py that takes a `network` argument reports addresses for THAT network:
+    wherever it hands a network on (`network=...` in a call), the value is its own parameter (or, in a method, self.network) - not a
+    class attribute or module variable that remembers the network of an earlier call."""
+    n = 0
+    for modname in ('transactions', 'blocks', 'keys', 'scripts'):
+        m = ctx.repo.mod(modname)
+        for qn, fn in sorted(m.functions.items()):
+            ps = [a.arg for a in fn.args.posonlyargs + fn.args.args + fn.args.kwonlyargs]
+            if 'network' not in ps:
+                continue
+            for c in ast.walk(fn):
+                if not isinstance(c, ast.Call):
+                    continue
+                for k in c.keywords:
+                    if k.arg != 'network':
+                        continue
+                    n += 1
+                    names = set(x.id for x in ast.walk(k.value) if isinstance(x, ast.Name))
+                    ok = 'network' in names or norm(k.value).startswith('self.network')
+                    if not ok:
+                        ctx.violate('%s:%s' % (modname, qn), '`%s` receives network=%s although the function was given its own `network`' % (norm(c.func)[:40], norm(k.value)[:40]), c,
+                                    'a transaction parsed with a Network object after an earlier parse of another network reports every standard script with the earlier network\'s address (tb1q... shown as bc1q...)')
+    ctx.saw('%d `network=` arguments inside functions that take a network: each passes the function\'s own' % n)
+    ctx.floor(n, 20, 'network arguments')
